@@ -891,7 +891,11 @@ func (env *Environment) runTasksAsHooks(hooksToTrigger task.Tasks) (errorMap map
 						continue
 					}
 
-					hookTimers[tid].Stop()
+					timer, hasTimer := hookTimers[tid]
+					if !hasTimer {
+						continue // late termination of a hook which already timed out
+					}
+					timer.Stop()
 					delete(hookTimers, tid)
 
 					if evt.ExitCode != 0 {
